@@ -93,7 +93,7 @@ def run(tier, seed):
     nfail = 0; evals = 0; worst_dw = Fraction(0)
     for (c, impl, sides, model), (c2, impl2, _, _), m in zip(res, res2, metas):
         evals += 1; b = m["b"]; fails = []
-        bad = sketchcheck.evaluate(b, impl, sides, model, ignore_model=("ksum", "kacc", "layout"))
+        bad = sketchcheck.evaluate(b, impl, sides, model, ignore_model=("kacc", "layout"))
         if bad and bad[1] == "oracle": fails.append(bad[2])
         if "bad" in m: fails.append(m["bad"])
         else:
